@@ -31,6 +31,8 @@ from hpstatic.xrnorm import atom_rewrite
 from . import c01
 from .c05 import subst
 
+MUTATION_TARGETS = {'holopy/scattering/interface.py': ['determine_default_theory_for', '_choose_mie_vs_multisphere', 'interpret_theory'], 'holopy/scattering/theory/multisphere.py': ['_calc_cscat']}
+
 LEVEL = 'other'
 META = dict(
     claimed=True,
